@@ -1324,3 +1324,61 @@ func (x *Exec) applyBulk(st *State, ef *Effect, pos token.Pos) {
 	x.assume(st, x.b.Forall([]*Term{r}, x.b.Eq(rd, rhs.scalar()), []*Term{rd}))
 	st.heap[ef.BulkKey] = na
 }
+
+// applyLemma: see GhostCall.
+func (x *Exec) applyLemma(st *State, gc *GhostCall, pos token.Pos) {
+	lc := x.eng.cf.Contracts[gc.Lemma]
+	if lc == nil || !lc.Lemma {
+		x.fail("ghostcall: %s is not a lemma", gc.Lemma)
+		return
+	}
+	if len(gc.Args) != len(lc.LemmaVars) {
+		x.fail("ghostcall: %s takes %d arguments", gc.Lemma, len(lc.LemmaVars))
+		return
+	}
+	x.spec++
+	savedPos := x.specPos
+	x.specPos = pos
+	var cond *Term
+	if gc.Cond != nil {
+		cond = x.evalCond(st, gc.Cond)
+	}
+	saved := st.names
+	nn := map[string]*Value{}
+	for k, v := range saved {
+		nn[k] = v
+	}
+	var argv []*Value
+	for _, a := range gc.Args {
+		argv = append(argv, x.eval(st, a))
+	}
+	for i, qv := range lc.LemmaVars {
+		nn[qv.Name] = x.coerce(st, argv[i], x.eng.typeByName(qv.Type))
+	}
+	x.spec--
+	x.specPos = savedPos
+	st.names = nn
+	guard := func(t *Term) *Term {
+		if cond == nil {
+			return t
+		}
+		return x.b.Implies(cond, t)
+	}
+	for _, r := range lc.Requires {
+		if clauseUsesFresh(lc, r) || r.Free {
+			continue
+		}
+		x.skolem = true
+		g := x.evalClauseIn(st, r, pos, gc.Lemma)
+		x.skolem = false
+		x.oblige(st, "call-pre", fmt.Sprintf("lemma(%s).%s", gc.Lemma, r.Name), guard(g), pos, r.Props)
+		x.assume(st, guard(g))
+	}
+	for _, en := range lc.Ensures {
+		if clauseUsesFresh(lc, en) {
+			continue
+		}
+		x.assume(st, guard(x.evalClauseIn(st, en, pos, gc.Lemma)))
+	}
+	st.names = saved
+}
